@@ -8,7 +8,7 @@ BASE = ("Trusted base: the SMT solvers; govc's translation of go/ssa (NaiveForm)
         "the assumed library contracts in /verif/spec (reflect, math/big, encoding/json, strings, ...), each listed in the evidence when used; spec axioms defining the JSON view of a reflect.Value. ")
 
 CHECKS = {
- "C01": ("Proved, for every schema and every JSON-shaped instance in any representation: (a) no false rejection for the directly asserting keywords type, minimum, maximum, exclusiveMinimum, exclusiveMaximum, minLength, maxLength, minItems, maxItems, minProperties, maxProperties — at every site where validate builds the corresponding error, the keyword's violation condition over the JSON view of the instance (written from the 2020-12 validation text: exact rational comparison, code-point length, array length, member count, 'number' subsumes 'integer') is an obligation that holds; (b) the anyOf and oneOf loops examine every branch (no early exit), as the annotation rules require. One recorded finding (string keywords applied to json.Number).",
+ "C01": ("Proved, for every schema and every JSON-shaped instance in any representation: (a) no false rejection for the directly asserting keywords type, minimum, maximum, exclusiveMinimum, exclusiveMaximum, minLength, maxLength, minItems, maxItems, minProperties, maxProperties — at every site where validate builds the corresponding error, the keyword's violation condition over the JSON view of the instance (written from the 2020-12 validation text: exact rational comparison, code-point length, array length, member count, 'number' subsumes 'integer') is an obligation that holds; (b) the anyOf and oneOf loops examine every branch (no early exit), as the annotation rules require. Found and fixed by these obligations: minLength/maxLength/pattern applied to json.Number (926921b).",
          "Partial: the converse direction (no false acceptance) and the applicator/unevaluated keywords are not yet under functional contracts; enum/const/uniqueItems, contains, required, dependent*, patternProperties, $ref targets are covered for safety and frames only. multipleOf and regular expressions are uninterpreted. " + BASE),
  "C02": ("Proved postconditions, for all inputs: isValidSchemaVersion(v) == supported(v) and detectDraft/newResolved select draft-07 exactly for the two draft-07 $schema URIs (spec functions written from the property statement); Validate returns a non-nil error whenever the root's $schema is unsupported, on every path (refusal before validation).",
          "Covers draft detection and refusal only. The draft-07 evaluation rules inside validate ($ref siblings ignored, items array/additionalItems, dependencies), fragment-$id anchors and draft inheritance of loaded documents are not yet under functional contracts. " + BASE),
@@ -16,9 +16,9 @@ CHECKS = {
          "Not yet proved: that the schema finally validated is the anchor's schema (the obligation is stated but not discharged within the time limit, so it is not claimed), the static split done by resolveRefs (dynamicRefAnchor set iff the lexical target's anchor is dynamic), and that the verdict then equals that of the target schema. " + BASE),
  "C07": ("Proved for every return path of (*state).validate (≈50 error returns, all loops, all recursive calls): if validate returns an error, the caller's annotations record (all five fields and the contents of both evaluated-* maps) is exactly what it was on entry — evaluations made inside a failing subschema never reach the caller; recursive calls are used through the same contract. Loop invariants carry the fact through all 29 loops.",
          "This is the 'failed subschema does not count' half of the property plus the frame facts (only the final merge writes the caller's record). That the merged record equals the specification's annotation set (which keywords contribute what; not / cousins / child locations) is not yet proved. " + BASE),
- "C08": ("Proved postconditions of the two classification helpers for an arbitrary reflect.Value in the JSON-shaped domain: jsonNumber(v) succeeds exactly when the JSON view jv(v) is a number and then returns exactly its rational value (every int/uint/float kind and json.Number); jsonType(v) returns typeName(jv(v)) for every kind — with one recorded known finding (json.Number is classified as string).",
+ "C08": ("Proved postconditions of the two classification helpers for an arbitrary reflect.Value in the JSON-shaped domain: jsonNumber(v) succeeds exactly when the JSON view jv(v) is a number and then returns exactly its rational value (every int/uint/float kind and json.Number); jsonType(v) returns typeName(jv(v)) for every kind (integer iff the rational is integral). Found and fixed by the name obligation: json.Number was classified as string (926921b).",
          "Only the helpers are covered; that validate's verdict depends on the instance only through jv(instance) needs the functional contract of validate (not yet). jv is axiomatised in /verif/spec/31_jview.gspec from the property statement. " + BASE),
- "C10": ("Zero-panic proof for the Validate call graph: for validate, Validate, annotations.*, merge, jsonNumber, jsonType, property, numPropertiesBounds, wrapf, assert, detectDraft, newResolved, isValidSchemaVersion every nil dereference, index, slice bound, nil-map write, type assertion, explicit panic/assert and every documented reflect/library panic condition (kind, range, key assignability, nil receiver) is an obligation discharged under the stated preconditions (Resolved well-formed, instance JSON-shaped in any representation); the range-over-func protocol panics are proved unreachable. Found and fixed: panic on maps with a named string key type.",
+ "C10": ("Zero-panic proof for the Validate call graph: for validate, Validate, annotations.*, merge, jsonNumber, jsonType, isJSONString, equalValue, Equal, the JSON-pointer functions, orderedProperties, basicChecks, forType, property, numPropertiesBounds, wrapf, assert, detectDraft, newResolved, isValidSchemaVersion every nil dereference, index, slice bound, nil-map write, type assertion, explicit panic/assert and every documented reflect/library panic condition (kind, range, key assignability, nil receiver) is an obligation discharged under the stated preconditions (Resolved well-formed, instance JSON-shaped in any representation); the range-over-func protocol panics are proved unreachable. Found and fixed: panic on maps with a named string key type.",
          "Coverage is the Validate call graph only: Resolve, Unmarshal, ApplyDefaults, For/ForType, equalValue/hashValue bodies are swept but not yet fully discharged, so they are not claimed. Termination (no hang) is not proved. Validate's precondition wfRS (what Resolve establishes) is assumed, not yet proved of Resolve. One loop invariant of uniqueItems is on the trusted list (see evidence). " + BASE),
  "C11": ("Proved postconditions of equalValue for every pair of non-wrapper (not pointer/interface) JSON-shaped reflect.Values whose JSON views are scalars: two numbers are Equal exactly when their exact rational values coincide (every int/uint/float kind and json.Number, through jsonNumber's contract: no float rounding), booleans and strings by value, null only equals null, values of different JSON types are never Equal; plus all safety obligations of the array/map/pointer arms and of the recursion. Two defects found by these obligations were fixed (panic on maps with different string key types; json.Number equal to the string that spells it).",
          "Not yet proved: the array and object arms return the JSON-equality verdict (element-wise / unordered key-value sets), and values behind pointers/interfaces (pre-finding: interface-vs-concrete and array-vs-slice comparisons return false). Reflexivity/symmetry/transitivity follow from the oracle being = on the JSON view only where the postconditions are proved. " + BASE),
